@@ -65,6 +65,34 @@ def h_op(f, ns, start='zero', kind='offline', same_start=False, grids=None, itex
     return body
 
 
+def h_shift(f, grids, shift):
+    """time invariance: the same signals, once starting at 0 and once moved by `shift` (so that they start later than every bound of the
+    formula): z3 decides for all values and all instants of the domain that the results agree up to the shift.  Needs no closed-form
+    oracle, so it reaches arbitrary nestings; the unshifted run is checked against the oracles by the other families."""
+    f = T(f)
+    vs = sorted(refsem.variables(f))
+
+    def body(env):
+        A = env.A
+        sig0 = {v: ct.signal(env, v, len(g), 'zero', grid=g) for v, g in zip(vs, grids)}
+        s0 = ct.make_spec('offline', 'out = ' + text(f), vs)
+        s1 = ct.make_spec('offline', 'out = ' + text(f), vs)
+        o0 = s0.evaluate(*[[v, [list(p) for p in sig0[v]]] for v in vs])
+        o1 = s1.evaluate(*[[v, [[p[0] + shift, p[1]] for p in sig0[v]]] for v in vs])
+        o0, o1 = [list(p) for p in o0], [list(p) for p in o1]
+        env.observe('shifted', o1)
+        res = ct.wellformed(A, o0, 'at-zero') + ct.wellformed(A, o1, 'shifted')
+        S, E = refct.domain(A, [sig0[v] for v in vs])
+        if not o0 or not o1:
+            return res + [('both-empty', A.bool(not o0 and not o1))]
+        res.append(('covers-start', A.le(o1[0][0], S + shift)))
+        tau = env.real('tau')
+        env.assume(A.And(A.le(S, tau), A.le(tau, E)))
+        res.append(('time-invariant', A.eq(refct.val(A, o1, tau + shift), refct.val(A, o0, tau))))
+        return res
+    return body
+
+
 def h_nested(f, ns, start='zero', twice=False):
     """nested formulas of the fragment that has a closed-form oracle (refct.rho_expr): pointwise operators over any
     variables, unary temporal operators over pointwise one-variable operands"""
@@ -145,6 +173,26 @@ def obligations(tier, rng):
             continue            # 4+4 samples on a grid take 2-5 min per obligation: thorough tier
         for gi, (gx, gy) in enumerate(GRIDS):
             out.append(ob('C04', 'op', 'grid%d/%s/n=[4, 4]' % (gi, text(f)), f=f, ns=[4, 4], grids=[gx, gy], max_paths=100000, wall=1500))
+    # signals that start LATER than every bound of the formula (a sensor that comes up at t = 5): single operators and nestings of past over
+    # future operators and of future over past ones, judged by time invariance against the same signals starting at 0
+    E2, G2, O1, H1 = (lambda g: ('eventually_t', g, 0, 2)), (lambda g: ('always_t', g, 0, 2)), (lambda g: ('once_t', g, 1, 2)), (lambda g: ('historically_t', g, 0, 1))
+    shf = [G2(X), E2(X), ('once', G2(X)), ('historically', E2(X)), ('once', ('always_t', X, 1, 2)), ('historically', ('eventually_t', X, 1, 3)),
+           ('since', G2(X), ('geq', X, C05)), O1(G2(X)), ('historically_t', E2(X), 0, 1), E2(('once', X)), G2(O1(X)), ('once', ('not', E2(X))),
+           ('and', ('once', G2(X)), ('historically', X)), ('once', E2(G2(X))), ('until_t', X, ('once', X), 0, 2), ('and', G2(X), ('once', X)), ('eventually_t', ('historically_t', X, 0, 1), 1, 2), ('not', G2(('not', X))), ('or', E2(X), ('historically', ('not', X)))]
+    shf2 = [('once', ('until_t', X, Y, 0, 2)), ('historically', ('or', E2(X), Y)), ('since', G2(X), Y), ('once', ('and', G2(X), ('eventually_t', Y, 1, 2)))]
+    g1 = [0, 0.125, 1, 3.5, 4]           # dyadic, so that grid + shift is exact in doubles
+    PASTOPS = {'once', 'historically', 'since', 'once_t', 'historically_t', 'since_t'}
+    FUTB = {'eventually_t', 'always_t', 'until_t', 'unless_t'}
+
+    def pof(f):
+        # a past operator with a bounded-future operator somewhere below it (known finding KF-C04-late-start-past-over-future)
+        return (f[0] in PASTOPS and refsem.has(f, FUTB)) or any(pof(c) for c in refsem.kids(f))
+    for f in (shf if not quick else [g for g in shf if not pof(g)] + [g for g in shf if pof(g)][:4]):
+        fam = 'shift-pof' if pof(f) else 'shift'
+        out.append(ob('C04', 'shift', '%s/%s/grid=%s/+5' % (fam, text(f), g1), f=f, grids=[g1], shift=5, max_paths=60000, wall=900))
+    for f in (shf2 if not quick else shf2[:2]):
+        fam = 'shift-pof' if pof(f) else 'shift'
+        out.append(ob('C04', 'shift', '%s/%s/grids/+5' % (fam, text(f)), f=f, grids=[[0, 0.125, 2.5], [0, 1, 3]], shift=5, max_paths=60000, wall=900))
     for f in NESTED:
         two = len(refsem.variables(f)) > 1
         for ns in ([[2, 2]] if two else ([[3]] if quick else [[3], [4]])):
